@@ -257,7 +257,12 @@ void TasmanianSparseGrid::makeFourierGrid(int dimensions, int outputs, int depth
 }
 
 void TasmanianSparseGrid::copyGrid(const TasmanianSparseGrid *source, int outputs_begin, int outputs_end){
-    if (outputs_end == -1) outputs_end = source->getNumOutputs();
+    if ((outputs_end < 0) or (outputs_end > source->getNumOutputs())) outputs_end = source->getNumOutputs(); // an end outside of the range means all remaining outputs
+    if (source == this){ // clear() would destroy the source, go through a copy
+        TasmanianSparseGrid self_copy(*this);
+        copyGrid(&self_copy, outputs_begin, outputs_end);
+        return;
+    }
     clear();
     if (!source->empty()){
         if (source->isGlobal()){
